@@ -35,7 +35,7 @@ def sign_tests(f, handler, scope):
         if not any("Direction" in (a.get("ty") or "") for a in c["args"]):
             continue
         d = c.get("def") or ""
-        if d and d.startswith(handler["def"] + "::") and d in f.bodies:
+        if d and d in f.bodies and (d.startswith(handler["def"] + "::") or d.startswith("solve::")):
             out.append((i_, f.bodies[d]))
         elif not d and c.get("res") == "local":
             lets = tast.find(handler["body"], lambda z: z.get("k") == "Let" and z["pat"].get("id") == c.get("id") and z.get("init") is not None and z["init"].get("k") == "Closure")
@@ -48,6 +48,8 @@ def sign_tests(f, handler, scope):
 class HHooks(Hooks):
     def call(self, sx, node, d):
         if d == INTERP and len(node["args"]) == 2:
+            if node.get("recv") is not None:
+                sx.eval(node["recv"])       # `interpolant.unwrap()`: evaluated for its unwrap event
             t = sx.eval(node["args"][0])
             lv = sx.lvalue(node["args"][1])
             if lv[0] == "key":
@@ -65,7 +67,47 @@ class HHooks(Hooks):
         return NotImplemented
 
 
+class DirHooks(HHooks):
+    """forces every condition that is a pure test of the direction of integration (a comparison of x with xold, or a
+    single-assignment local bound to one) to the branch taken for the given direction: one symbolic run per direction"""
+
+    def __init__(self, body, xid, xoldid, dirn):
+        self.body, self.xid, self.xoldid, self.dirn = body, xid, xoldid, dirn
+
+    def select_if(self, sx, node, cond):
+        try:
+            v = _eval_fin(node["cond"], {"dir": self.dirn, "rel": "E", "a": None, "b": None}, self.body, self.xid, self.xoldid)
+        except _Unknown:
+            return None
+        except Exception:
+            return None
+        if isinstance(v, bool):
+            return "then" if v else "else"
+        return None
+
+
 class HandlerCtx:
+    def dir_run(self, dirn):
+        """symbolic run of the handler with the direction of integration fixed ('fwd' | 'bwd')"""
+        cache = self.__dict__.setdefault("_dir_runs", {})
+        if dirn not in cache:
+            sx = SymExec(self.f, self.body["def"], DirHooks(self.body["body"], self.pid[2], self.pid[1], dirn))
+            sx.bind_params()
+            sx.eval(self.body["body"])
+            cache[dirn] = sx
+        return cache[dirn]
+
+    def pushes_of(self, sx, field=None):
+        out = []
+        for ev in sx.trace:
+            if ev["kind"] == "push":
+                r = ev["recv"]
+                base = r["e"] if r.get("k") == "Index" else r
+                nm = (base.get("fdef") or "")[len(DSO):] if (base.get("fdef") or "").startswith(DSO) else (base.get("name") if base.get("k") == "Path" else None)
+                if field is None or nm == field:
+                    out.append((nm, ev))
+        return out
+
     def __init__(self, f):
         self.f = f
         self.body = find_handler(f)
@@ -311,110 +353,97 @@ def r_teval_verbatim(rep, hc):
 
 
 def r_teval_window(rep, hc):
-    """every interpolated t_eval sample is guarded by a comparison of that same t_eval[i] with the step start xold,
-    in the form that matches the direction of integration (t >= xold - tol forward, t <= xold + tol backward)"""
-    sx = hc.sx
-    xold, x = Poly.atom(hc.pname[1]), Poly.atom(hc.pname[2])
-
-    def is_forward_atom(p):
-        a = p.single_atom() if isinstance(p, Poly) else None
-        if not a or a not in DEFS:
-            return None
-        op, xs = DEFS[a]
-        if len(xs) != 2:
-            return None
-        l, r = xs
-        if op in ("gt", "ge") and l == x and r == xold:
-            return True
-        if op in ("lt", "le") and l == xold and r == x:
-            return True
-        if op in ("lt", "le") and l == x and r == xold:
-            return False
-        if op in ("gt", "ge") and l == xold and r == x:
-            return False
-        return None
-
-    def kind(atom, tv):
-        d = DEFS.get(atom)
-        if not d or len(d[1]) != 2:
-            return None
-        op, (l, r) = d
-        if not (isinstance(l, Poly) and isinstance(r, Poly)):
-            return None
-        def about_xold(q):
-            return "xold" in [hc.pname[1]] and hc.pname[1] in q.atoms() and hc.pname[2] not in q.atoms()
-        if op in ("ge", "gt") and l == tv and about_xold(r):
-            return "fwd"
-        if op in ("le", "lt") and r == tv and about_xold(l):
-            return "fwd"
-        if op in ("le", "lt") and l == tv and about_xold(r):
-            return "bwd"
-        if op in ("ge", "gt") and r == tv and about_xold(l):
-            return "bwd"
-        return None
-
-    if_cond = {}
-    for ev in sx.trace:
-        if ev["kind"] == "if":
-            if_cond[id(ev["node"])] = ev["cond"]
-    if_vals = [ev for ev in sx.trace if ev["kind"] == "ifval"]
-    n = 0
-    for te, ye in push_pairs(hc):
-        if not hc.in_teval_region(te["node"]):
-            continue
-        tv, yv = te["value"], ye["value"]
-        inner = vec_of(yv)
-        if not is_teval_elem(tv) or inner is None or interp_of(inner) is None:
-            continue     # initial-callback pairs are not interpolated
-        n += 1
-        key = "R-TEVAL-WINDOW:%s:site%d" % (hc.fn, n)
-        dirs = {"fwd", "bwd"}
-        comps = []   # (applies_in, kind)
-        for node, branch, cv in te.get("pc", []):
-            if not isinstance(cv, Poly):
+    """every interpolated t_eval sample is guarded by a comparison of that same t_eval[i] with the step start xold, in the
+    form that matches the direction of integration (t >= xold - tol forward, t <= xold + tol backward). Decided on one
+    symbolic run of the handler per direction (all pure direction tests forced), from the path condition of each sample."""
+    xoldn, xn = hc.pname[1], hc.pname[2]
+    import limits
+    # handler fields that the constructor initialises with a non-negative literal (the comparison tolerance)
+    pos_fields = set()
+    for b_ in hc.f.body_list:
+        if b_["def"].startswith("solve::solout::DefaultSolOut") and b_["def"].endswith("::new"):
+            for lit in tast.find(b_["body"], lambda z: z.get("k") == "Struct" and any(fl["name"] == "t_events" for fl in z.get("fields", []))):
+                for fl in lit["fields"]:
+                    e_ = fl["e"]
+                    if e_.get("k") == "Lit" and e_.get("lk") in ("Float", "Int") and float(str(e_["v"]).replace("_", "")) >= 0:
+                        pos_fields.add("self." + fl["name"])
+    nonneg = lambda q: limits.nonneg(q, assume=lambda at: at in pos_fields)
+    n_sites = 0
+    problems = {}
+    for dirn in ("fwd", "bwd"):
+        sx = hc.dir_run(dirn)
+        seq = [(nm, ev) for nm, ev in hc.pushes_of(sx) if nm in ("t", "y")]
+        pairs = []
+        i = 0
+        while i + 1 < len(seq):
+            if seq[i][0] == "t" and seq[i + 1][0] == "y":
+                pairs.append((seq[i][1], seq[i + 1][1]))
+                i += 2
+            else:
+                i += 1
+        k = 0
+        for te, ye in pairs:
+            if not hc.in_teval_region(te["node"]) and not hc.in_teval_region(te.get("inner_node", te["node"])):
                 continue
-            fa = is_forward_atom(cv)
-            if fa is not None:
-                fwd = fa if branch == "then" else (not fa)
-                dirs &= {"fwd"} if fwd else {"bwd"}
+            tv, yv = te["value"], ye["value"]
+            inner = vec_of(yv)
+            if not is_teval_elem(tv) or inner is None or interp_of(inner) is None:
+                continue     # initial-callback pairs are not interpolated
+            k += 1
+            n_sites += 1
+            key = "R-TEVAL-WINDOW:%s:site%d" % (hc.fn, k)
+            ok = False
+            wrong = False
+            for node, branch, cv in te.get("pc", []):
+                a = cv.single_atom() if isinstance(cv, Poly) else None
+                d = DEFS.get(a) if a else None
+                if not d or d[0] not in ("ge", "gt", "le", "lt") or len(d[1]) != 2:
+                    continue
+                l, r = d[1]
+                if not (isinstance(l, Poly) and isinstance(r, Poly)):
+                    continue
+                op = d[0]
+                if branch != "then":
+                    op = {"ge": "lt", "gt": "le", "le": "gt", "lt": "ge"}[op]
+                # normalise to  t - xold + rest  (>= | <=) 0
+                p = l - r
+                if op in ("le", "lt"):
+                    sense = "le"
+                else:
+                    sense = "ge"
+                ct = p.t.get(((tv.single_atom(), 1),), 0)
+                if ct == 0 or xoldn not in p.atoms() or xn in p.atoms():
+                    continue
+                if ct < 0:
+                    p = -p
+                    sense = "le" if sense == "ge" else "ge"
+                rest = p - tv + Poly.atom(xoldn)
+                # forward: t - xold + T >= 0 with T >= 0 ; backward: t - xold - T <= 0
+                if sense == "ge" and (rest.is_zero() or nonneg(rest)):
+                    kind = "fwd"
+                elif sense == "le" and (rest.is_zero() or nonneg(-rest)):
+                    kind = "bwd"
+                else:
+                    continue
+                if kind == dirn:
+                    ok = True
+                else:
+                    wrong = True
+            if ok:
                 continue
-            if branch != "then":
-                continue
-            a = cv.single_atom()
-            if a and a in DEFS and DEFS[a][0] == "phi" and len(DEFS[a][1]) == 2:
-                # a flag computed by `if forward { A } else { B }`
-                v1, v2 = DEFS[a][1]
-                src = [ev for ev in if_vals if ev.get("v1") == v1 and ev.get("v2") == v2]
-                fwd_first = None
-                for ev in src:
-                    f2 = is_forward_atom(if_cond.get(id(ev["node"]), Poly()))
-                    if f2 is not None:
-                        fwd_first = f2
-                for leaf, when in ((v1, "fwd" if fwd_first else "bwd"), (v2, "bwd" if fwd_first else "fwd")):
-                    la = leaf.single_atom() if isinstance(leaf, Poly) else None
-                    k = kind(la, tv) if la else None
-                    if k and fwd_first is not None:
-                        comps.append(({when}, k))
-                    elif k:
-                        comps.append(({"fwd", "bwd"}, k))
-            elif a:
-                k = kind(a, tv)
-                if k:
-                    comps.append(({"fwd", "bwd"}, k))
-        probs = []
-        for d in sorted(dirs):
-            app = [k for when, k in comps if d in when]
-            if not app:
-                probs.append("no comparison of the requested time with the step start xold guards this sample when integrating %s" % ("forward" if d == "fwd" else "backward"))
-            elif any(k != d for k in app):
-                probs.append("when integrating %s the requested time is tested against xold in the %s form" % ("forward" if d == "fwd" else "backward",
-                                                                                                                 "backward (t <= xold + tol)" if d == "fwd" else "forward (t >= xold - tol)"))
-        if probs:
-            rep.violation("R-TEVAL-WINDOW", key, "; ".join(probs), sp(te["node"]))
-        else:
-            rep.ok("R-TEVAL-WINDOW", key, "t_eval[i] tested against xold in the direction-matching form (%s)" % "/".join(sorted(dirs)))
-    if n < 2:
-        rep.inconc("R-TEVAL-WINDOW", "R-TEVAL-WINDOW:%s:floor" % hc.fn, "only %d interpolated sampling sites found" % n)
+            if wrong:
+                problems.setdefault(key, []).append("when integrating %s the requested time is tested against xold in the %s form" % (
+                    "backward" if dirn == "bwd" else "forward", "forward (t >= xold - tol)" if dirn == "bwd" else "backward (t <= xold + tol)"))
+            else:
+                problems.setdefault(key, []).append("no comparison of the requested time with the step start xold guards this sample when integrating %s" % ("backward" if dirn == "bwd" else "forward"))
+            problems[key].append(te["node"])
+    for key, lst in problems.items():
+        node = [x for x in lst if isinstance(x, dict)][0]
+        rep.violation("R-TEVAL-WINDOW", key, "; ".join(x for x in lst if isinstance(x, str)), sp(node))
+    if n_sites < 2:
+        rep.inconc("R-TEVAL-WINDOW", "R-TEVAL-WINDOW:%s:floor" % hc.fn, "only %d interpolated sampling sites found" % n_sites)
+    elif not problems:
+        rep.ok("R-TEVAL-WINDOW", "R-TEVAL-WINDOW:%s" % hc.fn, "%d interpolated sampling site(s) over both directions, each under the direction-matched window test against xold" % n_sites)
 
 
 def r_nextidx_mono(rep, hc):
@@ -592,7 +621,7 @@ def _eval_fin(e, env, body, xid, xoldid, depth=0):
                 env[st["pat"]["id"]] = _eval_fin(st["init"], env, body, xid, xoldid, depth + 1)
             elif st.get("k") == "Let" and st["pat"].get("k") == "PTuple" and st.get("init") is not None:
                 v = _eval_fin(st["init"], env, body, xid, xoldid, depth + 1)
-                if not isinstance(v, tuple) or len(v) != len(st["pat"]["pats"]) or v[:1] == ("t",):
+                if not isinstance(v, tuple) or len(v) != len(st["pat"]["pats"]) or v[:1] in (("t",), ("elem",), ("other",)):
                     raise _Unknown("tuple pattern")
                 for q, x in zip(st["pat"]["pats"], v):
                     if q.get("k") == "PBind":
@@ -625,8 +654,13 @@ def _eval_fin(e, env, body, xid, xoldid, depth=0):
         if base.get("k") == "Path" and base.get("id") in (env.get("a"), env.get("b")):
             who = "a" if base["id"] == env["a"] else "b"
             return ("t", who) if e.get("name") == "0" else ("other", who, e.get("name"))
+        if base.get("k") == "Path" and base.get("res") == "local" and isinstance(env.get(base.get("id")), tuple) and env[base["id"]][:1] == ("elem",):
+            who = env[base["id"]][1]
+            return ("t", who) if e.get("name") == "0" else ("other", who, e.get("name"))
     if k == "Path":
         if e.get("res") == "local":
+            if e["id"] in (env.get("a"), env.get("b")) and e["id"] is not None:
+                return ("elem", "a" if e["id"] == env["a"] else "b")
             if e["id"] in env:
                 return env[e["id"]]
             lets = tast.find(body, lambda z: z.get("k") == "Let" and z["pat"].get("id") == e["id"] and z.get("init") is not None)
@@ -1049,6 +1083,216 @@ def r_evt_args(rep, hc, cif=None):
         rep.ok("R-EVT-ONE", key, "crossed(prev_event[i], g(x, y)[i], direction_i): values in the order of integration")
 
 
+def time_types(hc):
+    """(env, ty): a small type system over the handler's f64 expressions - P time point, D difference / tolerance, S scalar"""
+    body = hc.body["body"]
+    P, D, S = "P", "D", "S"
+    env = {hc.pid[1]: P, hc.pid[2]: P}
+    is_teval = lambda q: q.get("k") == "Index" and tast.contains(q["e"], lambda w: w.get("k") == "Path" and "t_eval" in (w.get("name") or "")) or \
+        (q.get("k") == "Index" and tast.contains(q["e"], lambda w: hc.field_is(w, "t_eval")))
+
+    def ty(e, depth=0):
+        if e is None or depth > 30:
+            return S
+        k = e.get("k")
+        if is_teval(e):
+            return P
+        if k == "Path" and e.get("res") == "local":
+            return env.get(e["id"], S)
+        if k in ("Cast", "AddrOf", "DropTemps") or (k == "Unary" and e.get("op") in ("Deref", "Neg")):
+            return ty(e["e"], depth + 1)
+        if k == "Binary":
+            l, r = ty(e["l"], depth + 1), ty(e["r"], depth + 1)
+            op = e["op"]
+            if op == "Add":
+                return P if P in (l, r) and (l, r) != (P, P) else (D if D in (l, r) else S)
+            if op == "Sub":
+                if (l, r) == (P, P):
+                    return D
+                return P if l == P else (D if D in (l, r) else S)
+            if op in ("Mul", "Div"):
+                return D if D in (l, r) or P in (l, r) else S
+            return S
+        if k == "MethodCall" and e.get("name") in ("abs", "min", "max", "clamp", "copysign"):
+            ts = [ty(e["recv"], depth + 1)] + [ty(a_, depth + 1) for a_ in e["args"]]
+            return P if P in ts else (D if D in ts else S)
+        if k == "If":
+            ts = [ty(e["then"], depth + 1), ty(e.get("else"), depth + 1)]
+            return P if P in ts else (D if D in ts else S)
+        if k == "Block":
+            return ty(e.get("tail") if e.get("tail") is not None else e.get("expr"), depth + 1)
+        if k == "Tuple":
+            return S
+        return S
+    lets = tast.find(body, lambda z: z.get("k") == "Let" and z["pat"].get("k") == "PBind" and z.get("init") is not None and (z["pat"].get("ty") or "") == "f64")
+    asgs = tast.find(body, lambda z: z.get("k") in ("Assign", "AssignOp") and z["l"].get("k") == "Path" and (z["l"].get("ty") or "") == "f64")
+    rank = {S: 0, D: 1, P: 2}
+    for _ in range(6):
+        changed = False
+        for l in lets:
+            t = ty(l["init"])
+            if rank[t] > rank[env.get(l["pat"]["id"], S)]:
+                env[l["pat"]["id"]] = t
+                changed = True
+        for a_ in asgs:
+            t = ty(a_["r"]) if a_["k"] == "Assign" else ty({"k": "Binary", "op": a_["op"].replace("Assign", ""), "l": a_["l"], "r": a_["r"]})
+            if rank[t] > rank[env.get(a_["l"]["id"], S)]:
+                env[a_["l"]["id"]] = t
+                changed = True
+        if not changed:
+            break
+    return env, ty
+
+
+# ------------------------------------------------------------------------------------- R-DIR-MIRROR
+def r_dir_mirror(rep, hc):
+    """every test that the handler makes differently for forward and backward integration - `if forward { A } else { B }`
+    with A, B comparisons of time points - is symmetric under time reflection: B is A with every time point negated
+    (tolerances keep their sign), e.g.  t >= xold - tol  <->  t <= xold + tol,   t < t_event  <->  t > t_event."""
+    body = hc.body["body"]
+    xid, xoldid = hc.pid[2], hc.pid[1]
+
+    def linear(e, sign, out):
+        """e as a signed sum of rendered leaf terms"""
+        k = e.get("k")
+        if k in ("Cast", "AddrOf", "DropTemps") or (k == "Unary" and e.get("op") == "Deref"):
+            return linear(e["e"], sign, out)
+        if k == "Unary" and e.get("op") == "Neg":
+            return linear(e["e"], -sign, out)
+        if k == "Binary" and e["op"] in ("Add", "Sub"):
+            linear(e["l"], sign, out)
+            linear(e["r"], sign if e["op"] == "Add" else -sign, out)
+            return
+        t = tast.render(e)
+        out[t] = out.get(t, 0) + sign
+
+    env_t, ty_t = time_types(hc)
+    # loop-bound times (event times of the processing loop) are points as well
+    for lp in tast.find(body, lambda z: z.get("k") == "For"):
+        for q in tast.find(lp["pat"], lambda q: q.get("k") == "PBind" and (q.get("ty") or "") == "f64"):
+            env_t.setdefault(q["id"], "P")
+
+    def is_point(txt, node_map):
+        n_ = node_map.get(txt)
+        return n_ is not None and ty_t(n_) == "P"
+
+    def canon(c):
+        if c.get("k") != "Binary" or c["op"] not in ("Lt", "Le", "Gt", "Ge"):
+            return None
+        terms, nodes = {}, {}
+
+        def collect(e):
+            k = e.get("k")
+            if k in ("Cast", "AddrOf", "DropTemps") or (k == "Unary" and e.get("op") in ("Deref", "Neg")):
+                return collect(e["e"])
+            if k == "Binary" and e["op"] in ("Add", "Sub"):
+                collect(e["l"])
+                collect(e["r"])
+                return
+            nodes[tast.render(e)] = e
+        collect(c["l"])
+        collect(c["r"])
+        linear(c["l"], 1, terms)
+        linear(c["r"], -1, terms)
+        terms = {t_: v for t_, v in terms.items() if v != 0}
+        return c["op"], terms, nodes
+
+    def normal(op, terms, nodes):
+        pts = sorted(t_ for t_ in terms if is_point(t_, nodes))
+        if not pts:
+            return None
+        if terms[pts[0]] < 0:
+            terms = {t_: -v for t_, v in terms.items()}
+            op = {"Lt": "Gt", "Gt": "Lt", "Le": "Ge", "Ge": "Le"}[op]
+        return op, tuple(sorted(terms.items()))
+    n = 0
+    bad = []
+    for i_ in tast.find(body, lambda z: z.get("k") == "If" and z.get("else") is not None and ((z.get("ty") or "") == "bool" or (z.get("ty") or "").replace(" ", "") in ("(bool,bool)", "(bool,bool,bool)"))):
+        try:
+            d_ = _eval_fin(i_["cond"], {"dir": "fwd", "rel": "E", "a": None, "b": None}, body, xid, xoldid)
+        except _Unknown:
+            continue
+        if not isinstance(d_, bool):
+            continue
+        def tail(bk):
+            while bk is not None and bk.get("k") == "Block" and not bk.get("stmts"):
+                bk = bk.get("tail") if bk.get("tail") is not None else bk.get("expr")
+            return bk
+        A, B = tail(i_["then"]), tail(i_["else"])
+        pairs = [(A, B)]
+        if A is not None and B is not None and A.get("k") == "Tuple" and B.get("k") == "Tuple" and len(A["elems"]) == len(B["elems"]):
+            pairs = list(zip(A["elems"], B["elems"]))
+        for A_, B_ in pairs:
+            ca, cb = canon(A_) if A_ else None, canon(B_) if B_ else None
+            if not ca or not cb:
+                continue
+            # reflect A: time points change sign
+            op, terms, nodes = ca
+            refl = {t_: (-v if is_point(t_, nodes) else v) for t_, v in terms.items()}
+            na, nb = normal(op, refl, nodes), normal(cb[0], cb[1], cb[2])
+            if na is None or nb is None:
+                continue
+            n += 1
+            if na != nb:
+                bad.append((i_, A_, B_))
+    key = "R-DIR-MIRROR:%s" % hc.fn
+    if bad:
+        i_, A, B = bad[0]
+        rep.violation("R-DIR-MIRROR", key, "the backward variant `%s` is not the time reflection of the forward variant `%s`: the test selects different requested times / events for the two directions of integration"
+                      % (tast.render(B)[:70], tast.render(A)[:70]), i_.get("sp"))
+    elif n < 2:
+        rep.inconc("R-DIR-MIRROR", key, "only %d direction-dependent comparison pair(s) found (expected >= 2)" % n)
+    else:
+        rep.ok("R-DIR-MIRROR", key, "%d forward/backward comparison pairs are mirror images under time reflection" % n)
+
+
+# ------------------------------------------------------------------------------------- R-TIME-MINMAX
+def r_time_minmax(rep, hc):
+    """time POINTS (x, xold, requested times, bracket ends, event times) are never ordered with a bare min / max / clamp:
+    which of two points is "smaller" depends on the direction of integration, so `t.max(xold).min(x)` is the identity going
+    forward and the constant x going backward. A small type system separates points from differences (P - P = D,
+    P + D = P, s*D = D); min/max/clamp with point operands is accepted only as the sorted pair (min and max of the same two
+    operands both taken) or under a test of the direction."""
+    body = hc.body["body"]
+    P, D, S = "P", "D", "S"
+    env, ty = time_types(hc)
+    n_pts = len([1 for v in env.values() if v == P])
+    calls = tast.find_with_parents(body, lambda z: z.get("k") == "MethodCall" and z.get("name") in ("min", "max", "clamp") and (z["recv"].get("ty") or "").lstrip("&") == "f64")
+    bad = []
+    n = 0
+    for c, parents in calls:
+        ops = [c["recv"]] + list(c["args"])
+        if [ty(o) for o in ops].count(P) < 2:
+            continue
+        n += 1
+        # sorted pair: the sibling min/max of the same two operands exists
+        if c["name"] in ("min", "max") and len(ops) == 2:
+            want = "max" if c["name"] == "min" else "min"
+            sig = sorted(tast.render(o) for o in ops)
+            if any(c2.get("name") == want and sorted([tast.render(c2["recv"])] + [tast.render(a_) for a_ in c2["args"]]) == sig for c2, _ in calls):
+                continue
+        # under a test of the direction (a comparison of x with xold, or a local bound to one)
+        guarded = False
+        for a_ in parents:
+            if a_.get("k") == "If":
+                try:
+                    _eval_fin(a_["cond"], {"dir": "fwd", "rel": "E", "a": None, "b": None}, body, hc.pid[2], hc.pid[1])
+                    guarded = True
+                except _Unknown:
+                    pass
+        if guarded:
+            continue
+        bad.append(c)
+    key = "R-TIME-MINMAX:%s" % hc.fn
+    if bad:
+        rep.violation("R-TIME-MINMAX", key, "`%s` orders time points with %s: going backward (x < xold) the result is a different end of the step than going forward - "
+                      "an event time / sample time computed from it is wrong for one direction of integration" % (tast.render(bad[0])[:90], bad[0]["name"]), bad[0].get("sp"))
+    elif n_pts < 4:
+        rep.inconc("R-TIME-MINMAX", key, "only %d time-point locals identified in the handler" % n_pts)
+    else:
+        rep.ok("R-TIME-MINMAX", key, "%d time-point locals; %d min/max of two time points, all sorted pairs or under a direction test" % (n_pts, n))
+
+
 # ------------------------------------------------------------------------------------- FIN: crossed truth table
 NAN = float("nan")
 REPS = {"neg": -1.0, "zero": 0.0, "negzero": -0.0, "pos": 1.0, "nan": NAN}
@@ -1315,6 +1559,14 @@ class Mode2Mon(mon.Monitor):
         body = hc.body["body"]
         derived = set()
         for lt in tast.find(body, lambda z: z.get("k") == "LetExpr" and tast.contains(z["init"], lambda q: hc.field_is(q, "first_step"))):
+            for b in tast.find(lt["pat"], lambda z: z.get("k") == "PBind"):
+                derived.add(b["id"])
+        # ... or bound by the arms of a `match self.first_step { Some(h0) .. }` / a let-else
+        for mt in tast.find(body, lambda z: z.get("k") == "Match" and tast.contains(z["scrut"], lambda q: hc.field_is(q, "first_step"))):
+            for arm in mt["arms"]:
+                for b in tast.find(arm["pat"], lambda z: z.get("k") == "PBind"):
+                    derived.add(b["id"])
+        for lt in tast.find(body, lambda z: z.get("k") == "Let" and z.get("init") is not None and tast.contains(z["init"], lambda q: hc.field_is(q, "first_step"))):
             for b in tast.find(lt["pat"], lambda z: z.get("k") == "PBind"):
                 derived.add(b["id"])
         changed = True
